@@ -43,7 +43,12 @@ prop("C14", [_lazy("state", "rule_ctx1"), _lazy("state", "rule_ctx2"), _lazy("st
              _lazy("misc", "rule_compose1"),
              _lazy("misc", "rule_constesc1"),
              _lazy("misc", "rule_memokey1"),
-             _lazy("naming", "rule_uniq3")],
+             _lazy("naming", "rule_uniq3"),
+             _lazy("misc", "rule_lock1"),
+             _lazy("state", "rule_shared1"),
+             _lazy("naming", "rule_uniq4"),
+             _lazy("emit", "rule_dup1"),
+             _lazy("misc", "rule_gencall1")],
      "Static decision of the clauses of C14 that are visible in code shape: the thread-local reference context is "
      "saved/restored on every exit and only used through `with` (CTX-1..3); no function reachable from a library "
      "entry point writes module-level, class-level, closure or default-argument state (GLOB-1, effect summaries "
@@ -54,7 +59,9 @@ prop("C14", [_lazy("state", "rule_ctx1"), _lazy("state", "rule_ctx2"), _lazy("st
 
 prop("C15", [_lazy("state", "rule_tls1"), _lazy("state", "rule_glob1"), _lazy("state", "rule_cache1"),
              _lazy("state", "rule_thread1"), _lazy("state", "rule_shared1"),
-             _lazy("misc", "rule_constesc1")],
+             _lazy("misc", "rule_constesc1"),
+             _lazy("misc", "rule_lock1"),
+             _lazy("misc", "rule_tmp1")],
      "Static decision of: every read of a threading.local attribute is safe in a thread that never wrote it "
      "(TLS-1: defined by a threading.local subclass, or dominated by a write in the same function; an import-time "
      "assignment does not count); independent pipelines share no written state (GLOB-1, CACHE-1).",
@@ -66,7 +73,11 @@ prop("C17", [_lazy("cli_fail", "rule_atom"), _lazy("cli_fail", "rule_exc1"), _la
              _lazy("cli_fail", "rule_enc1"), _lazy("cli_fail", "rule_keychk1"), _lazy("cli_fail", "rule_load3"),
              _lazy("state", "rule_ctx1"),
              _lazy("misc", "rule_exitcm1"),
-             _lazy("misc", "rule_arity1")],
+             _lazy("misc", "rule_arity1"),
+             _lazy("misc", "rule_tmp1"),
+             _lazy("misc", "rule_load4"),
+             _lazy("cli_flow", "rule_argval1"),
+             _lazy("misc", "rule_iter2")],
      "Static decision of: every file-mutating call reachable from main is classified, and each write-capable one "
      "is a `with` block whose body only writes locals defined before the open, with no call that can fail "
      "reachable afterwards in that function or, after it returns, in its callers up to main (ATOM-1/2, CFG "
@@ -82,7 +93,9 @@ prop("C05", [_lazy("registry", "rule_reg12"), _lazy("registry", "rule_reg3"), _l
              _lazy("registry", "rule_reg5"), _lazy("cli_flow", "rule_argfwd1"),
              _lazy("cli_flow", "rule_optflow4"),
              _lazy("misc", "rule_eqhash1"),
-             _lazy("misc", "rule_convnum1")],
+             _lazy("misc", "rule_convnum1"),
+             _lazy("cli_flow", "rule_optflow7"),
+             _lazy("state", "rule_glob1_registry")],
      "Static decision of: the registry mapping is written only by ModelRegistry, and every call that removes a "
      "model is, in the same loop iteration and unconditionally, followed by snapshot loops retargeting all pointers "
      "and re-parenting all child references to the one replacement, which is registered after the loop and built "
@@ -99,7 +112,9 @@ prop("C09", [_lazy("strtypes", "rule_det1"), _lazy("strtypes", "rule_det2"), _la
              _lazy("strtypes", "rule_det4"), _lazy("strtypes", "rule_det5"), _lazy("strtypes", "rule_res1"),
              _lazy("infer", "rule_val1"), _lazy("cli_flow", "rule_optflow6_disable"), _lazy("strtypes", "rule_cover1"),
              _lazy("strtypes", "rule_rt1"), _lazy("cli_flow", "rule_regdeliv1"),
-             _lazy("infer", "rule_widen1")],
+             _lazy("infer", "rule_widen1"),
+             _lazy("strtypes", "rule_det7"),
+             _lazy("strtypes", "rule_regdup1")],
      "Static decision of the protocol clauses of C09: a registry class is returned as the detected type only where "
      "a completed call of that class's own parser on the unmodified input dominates the return and the rejecting "
      "handler cannot fall through (DET-1); the registry iterates its registration list, which is only appended to "
@@ -164,7 +179,10 @@ prop("C16", [_lazy("cli_flow", "rule_optflow1"), _lazy("cli_flow", "rule_optflow
              _lazy("misc", "rule_memokey1"),
              _lazy("state", "rule_cache1"),
              _lazy("cli_fail", "rule_lookup1"),
-             _lazy("misc", "rule_argp1")],
+             _lazy("misc", "rule_argp1"),
+             _lazy("misc", "rule_iter2"),
+             _lazy("cli_flow", "rule_sibconv1"),
+             _lazy("cli_flow", "rule_optflow7")],
      "Static decision of: every add_argument destination is read from the namespace and nothing else is "
      "(OPTFLOW-1); each option's value flows (forward taint through Cli's methods, attribute cells, dict keys, "
      "called callables) to its documented library parameter, not into another option's slot, and no hop of that "
@@ -183,7 +201,10 @@ prop("C18", [_lazy("converters", "rule_tok1"), _lazy("converters", "rule_tok2"),
              _lazy("naming", "rule_label2"), _lazy("imports", "rule_imp5"), _lazy("emit", "rule_kw1"),
              _lazy("converters", "rule_convform1"), _lazy("naming", "rule_label5"),
              _lazy("infer", "rule_opt2"),
-             _lazy("naming", "rule_uniq1")],
+             _lazy("naming", "rule_uniq1"),
+             _lazy("strtypes", "rule_det1"),
+             _lazy("infer", "rule_opt3"),
+             _lazy("strtypes", "rule_cover1")],
      "Static decision of: the path tokens and both separators emitted by the generator are the ones the post-init "
      "interpreter dispatches / splits on, and its type-argument index per container token matches the emitted "
      "annotation form (TOK-1); every IR class that rapid type analysis shows the inference pipeline can put in a "
@@ -197,7 +218,8 @@ prop("C10", [_lazy("emit", "rule_lim"), _lazy("emit", "rule_inj3"), _lazy("emit"
              _lazy("cli_flow", "rule_optflow_maxlit"), _lazy("infer", "rule_eq1"), _lazy("infer", "rule_nf7"),
              _lazy("emit", "rule_inj5"), _lazy("infer", "rule_opt"),
              _lazy("infer", "rule_memo1"),
-             _lazy("misc", "rule_memokey1")],
+             _lazy("misc", "rule_memokey1"),
+             _lazy("emit", "rule_annot1")],
      "Static decision of: every comparison of a literal count with MAX_LITERALS, of a member length with "
      "MAX_STRING_LENGTH and of the member count with the configured maximum flips exactly at the documented "
      "boundary (evaluated at limit-1, limit, limit+1 after normalisation) and compares the size of ONE collection; "
@@ -212,7 +234,9 @@ prop("C11", [_lazy("emit", "rule_inj2"), _lazy("emit", "rule_inj5"), _lazy("emit
              _lazy("imports", "rule_shadow1"), _lazy("emit", "rule_dup1"), _lazy("state", "rule_cache2"),
              _lazy("naming", "rule_optfwd1"), _lazy("naming", "rule_uniq1"), _lazy("naming", "rule_uniq2"),
              _lazy("imports", "rule_shadow2"), _lazy("naming", "rule_label2"), _lazy("naming", "rule_label5"),
-             _lazy("naming", "rule_uniq4")],
+             _lazy("naming", "rule_uniq4"),
+             _lazy("naming", "rule_label6"),
+             _lazy("misc", "rule_gencall1")],
      "Static decision of: every use of the original key in the field_data family is a comparison, a label "
      "conversion, a container display (rendered by repr) or an exact escaper in code context (INJ-2); on every "
      "feasible path of each generator the original key is attached and rendered whenever the name differs (and "
@@ -231,7 +255,9 @@ prop("C03", [_lazy("imports", "rule_imp1"), _lazy("imports", "rule_imp2"), _lazy
              _lazy("layout", "rule_nameord1"), _lazy("naming", "rule_nameord2"), _lazy("naming", "rule_uniq1"),
              _lazy("naming", "rule_uniq2"), _lazy("naming", "rule_label2"), _lazy("naming", "rule_label5"),
              _lazy("misc", "rule_empty1"),
-             _lazy("naming", "rule_uniq4")],
+             _lazy("naming", "rule_uniq4"),
+             _lazy("naming", "rule_label6"),
+             _lazy("misc", "rule_gencall1")],
      "Static decision of: every import tuple a generator can emit (symbolic components expanded over the class "
      "tables) names an existing module and a name bound at its top level, read from the installed sources "
      "(IMP-1); every identifier in an emitted code fragment (templates, default/factory/converter strings, bases) "
@@ -249,7 +275,11 @@ prop("C04", [_lazy("emit", "rule_sib1"), _lazy("emit", "rule_sib2"), _lazy("emit
              _lazy("naming", "rule_nameord2"), _lazy("naming", "rule_optfwd1"), _lazy("emit", "rule_kw1"),
              _lazy("naming", "rule_uniq2"),
              _lazy("naming", "rule_uniq1"),
-             _lazy("misc", "rule_empty1")],
+             _lazy("misc", "rule_empty1"),
+             _lazy("emit", "rule_annot1"),
+             _lazy("naming", "rule_uniq4"),
+             _lazy("naming", "rule_label6"),
+             _lazy("misc", "rule_gencall1")],
      "Static decision of: on every feasible path of each framework's field_data (path enumeration with a small "
      "abstract state for the kwargs dict) an optional list/dict/scalar field carries default list/dict/None to "
      "the emitted body and a required field carries none; the optional flag is the sort_fields group, decided by "
@@ -264,7 +294,9 @@ prop("C12", [_lazy("layout", "rule_lay1"), _lazy("layout", "rule_lay2"), _lazy("
              _lazy("naming", "rule_uniq2"),
              _lazy("misc", "rule_compose1"),
              _lazy("naming", "rule_uniq3"),
-             _lazy("naming", "rule_uniq4")],
+             _lazy("naming", "rule_uniq4"),
+             _lazy("misc", "rule_gencall1"),
+             _lazy("cli_flow", "rule_reset1_structure")],
      "Static decision of: in both layout functions the table of structure entries is built once up front and never "
      "rewritten in the placement loop, and on every non-raising path through the per-model loop (path enumeration; "
      "try/except counted once because insert_before raises before inserting) the current model's entry is inserted "
@@ -281,7 +313,12 @@ prop("C01", [_lazy("infer", "rule_opt"), _lazy("infer", "rule_opt2"), _lazy("inf
              _lazy("naming", "rule_uniq1"), _lazy("imports", "rule_shadow2"), _lazy("naming", "rule_label2"),
              _lazy("naming", "rule_label5"),
              _lazy("naming", "rule_nameord2"),
-             _lazy("misc", "rule_late1")],
+             _lazy("misc", "rule_late1"),
+             _lazy("naming", "rule_label6"),
+             _lazy("misc", "rule_gencall1"),
+             _lazy("emit", "rule_label1"),
+             _lazy("emit", "rule_inj5"),
+             _lazy("naming", "rule_uniq2")],
      "Static decision of the optionality / completeness clauses of C01: on every feasible path of the per-field merge "
      "loop (path enumeration with the equality axioms of EQ-1/NF-3) the value left in the merged set is optional "
      "whenever the stored or the incoming side was optional or the field is new in a later set, and the stored type "
@@ -296,7 +333,8 @@ prop("C02", [_lazy("infer", "rule_opt"), _lazy("infer", "rule_nulldet"), _lazy("
              _lazy("state", "rule_glob1_generators"), _lazy("infer", "rule_val1"), _lazy("emit", "rule_lim"),
              _lazy("infer", "rule_nf6"), _lazy("strtypes", "rule_det6"),
              _lazy("infer", "rule_memo1"),
-             _lazy("misc", "rule_memokey1")],
+             _lazy("misc", "rule_memokey1"),
+             _lazy("emit", "rule_sib1")],
      "Static decision of: Optional is introduced in the merge only when justified (converse direction of the OPT "
      "table, OPT-4); Null is produced only under `value is None` and Unknown only under the emptiness test of the "
      "matching container (NULLDET-1); candidates are removed from a union only as documented (Unknown when another "
@@ -310,7 +348,8 @@ prop("C07", [_lazy("infer", "rule_opt"), _lazy("infer", "rule_eq1"), _lazy("emit
              _lazy("infer", "rule_samples1"), _lazy("registry", "rule_cmp1"), _lazy("registry", "rule_cmp2"),
              _lazy("infer", "rule_nf6"), _lazy("infer", "rule_widen1"), _lazy("infer", "rule_memo1"),
              _lazy("misc", "rule_memokey1"),
-             _lazy("naming", "rule_uniq5")],
+             _lazy("naming", "rule_uniq5"),
+             _lazy("infer", "rule_opt2")],
      "Static decision of: the merge outcome's optionality is the same for mirrored inputs and the stored side is kept "
      "only on equality (OPT-5 on the OPT path table); equality of IR types is type-exact and order-insensitive "
      "(ComplexType compares the sorted MEMBER lists, StringLiteral compares sets) and caches are invalidated on "
@@ -322,7 +361,9 @@ prop("C07", [_lazy("infer", "rule_opt"), _lazy("infer", "rule_eq1"), _lazy("emit
 prop("C08", [_lazy("infer", "rule_nf"), _lazy("infer", "rule_nf6"), _lazy("infer", "rule_nf7"), _lazy("infer", "rule_eq1"),
              _lazy("infer", "rule_widen1"), _lazy("infer", "rule_opt3"), _lazy("infer", "rule_val1"), _lazy("infer", "rule_nf8"), _lazy("infer", "rule_iface1"), _lazy("infer", "rule_nf10"),
              _lazy("infer", "rule_memo1"),
-             _lazy("infer", "rule_nf9")],
+             _lazy("infer", "rule_nf9"),
+             _lazy("infer", "rule_nf11"),
+             _lazy("misc", "rule_cacheinv1")],
      "Static decision of: every DUnion construction in the inference code is followed by a size test on the "
      "constructed union that replaces a singleton by its member (or is re-simplified by the optimize_type pass), the "
      "final union is built only from a non-empty candidate list, Optional never wraps Optional (NF-1/2/3); merged "
